@@ -91,6 +91,18 @@ pub fn codec_oracle(p: &Packet, m: &RefMsg) -> Result<&'static str, (String, Str
             }
         }
     }
+    // 4. the custom-limit encoder yields the same wire image when the limit is exactly the wire length
+    match guard(|| p.to_bytes_with_limit(expect.len())) {
+        Err(pn) => return Err((format!("C01/encode-panic@{}", pn.site()), pn.message)),
+        Ok(r) => {
+            if r.as_ref().ok() != Some(&expect) {
+                return Err((
+                    "C01/to_bytes_with_limit-differs-at-exact-limit".into(),
+                    format!("wire length {} == limit, but to_bytes_with_limit gave {:?}", expect.len(), r.map(|b| b.len())),
+                ));
+            }
+        }
+    }
     Ok(class)
 }
 
@@ -732,6 +744,29 @@ fn part_b_many(ctx: &Ctx, rep: &mut Report) {
             options.push((b, pattern(len, 3)));
             let m = RefMsg { version: 1, mtype: 0, token: vec![0x11, 0x22], code: 0x01, mid: (a as u16) ^ (b as u16), options, payload: vec![0xFF] };
             run_case("B12-registered-number-pairs", i, n, &m, ctx, rep);
+        });
+    }
+    // B13: adjacent option instances whose value lengths coincide modulo 2^8 / 2^16
+    {
+        let adds: [usize; 5] = [256, 512, 65280, 65536, 0];
+        let radices = [301u64, adds.len() as u64, 2, 3, 2];
+        let n = product(&radices);
+        ctx.family(rep, "B13-adjacent-lengths-equal-modulo-256-65536", "two (three) adjacent option instances of lengths l and l+{256,512,65280,65536,0} (l = 0..=300, both orders, second option number first+{0,1,13}, optionally a third instance of length l)", n, true, |i, rep| {
+            let d = decode(i, &radices);
+            let l = d[0] as usize;
+            let l2 = l + adds[d[1] as usize];
+            if l2 > refmodel::codec::MAX_EXT {
+                rep.count("skipped-length-not-encodable");
+                return;
+            }
+            let (a, b) = if d[2] == 0 { (l, l2) } else { (l2, l) };
+            let second = 11 + [0u32, 1, 13][d[3] as usize];
+            let mut options = vec![(11u32, pattern(a, 0x21)), (second, pattern(b, 0x43))];
+            if d[4] == 1 {
+                options.push((second, pattern(l, 0x65)));
+            }
+            let m = RefMsg { version: 1, mtype: 0, token: vec![7], code: 2, mid: 0x1234, options, payload: vec![] };
+            run_case("B13-adjacent-lengths-equal-modulo-256-65536", i, n, &m, ctx, rep);
         });
     }
     // B10: byte values - every byte value as the content of option values, token and payload
